@@ -17,7 +17,7 @@ REQUIRED_FLAGS = ["overlap_fused", "nested", "abutting_kept_separate", "identica
 
 def context(tier, seed):
     p = [60, 21, 107, 64][seed % 4]
-    ch = [(0, 1), (2, 9), (0, 15)][(seed // 4) % 3]
+    ch = [(0, 9), (2, 15), (1, 12)][(seed // 4) % 3]      # always one channel below 8 and one above (sort-key fields)
     return {"p": p, "ch": ch, "tier": tier,
             "bounds": {"intervals": IV_T, "channels": list(ch),
                        "pitches": [p] if tier == "quick" else [p, p + 1], "family_size": [1, 3]}}
